@@ -294,8 +294,8 @@ type c18Case struct {
 const c18TMin = 2.2250738585072014e-308
 
 var (
-	c18TQuick    = []float64{0, 1e-8, 1e-4, 0.01, 0.1, 0.5, 1, 2, 5, 20, 100, c18TMin}
-	c18TThorough = []float64{0, 1e-8, 1e-6, 1e-4, 1e-3, 0.01, 0.05, 0.1, 0.2, 0.5, 1, 2, 5, 10, 20, 50, 100, c18TMin}
+	c18TQuick    = []float64{0, 1e-8, 1e-4, 0.01, 0.1, 0.5, 1, 2, 5, 20, 30, 100, c18TMin}
+	c18TThorough = []float64{0, 1e-8, 1e-6, 1e-4, 1e-3, 0.01, 0.05, 0.1, 0.2, 0.5, 1, 2, 5, 10, 20, 28, 29, 30, 50, 100, c18TMin}
 	c18Kappas    = []float64{0.1, 0.5, 1, 2, 4, 10}
 	c18KappasTh  = []float64{0.1, 0.25, 0.5, 1, 2, 4, 10, 25}
 	c18GTRRates  = []float64{0.2, 1, 3}
@@ -1293,13 +1293,11 @@ func c18Check(c *mc.Ctx, cs c18Case) {
 	if len(ts) > 0 && !k.dead {
 		var w *models.Pij
 		var err error
-		walk := append(append([]float64{}, ts...), ts[0])
+		// … then t, 0, the same t again, the same t twice, another one twice: a cached length must follow the matrix
+		walk := append(append([]float64{}, ts...), ts[0], 0.5, 0, 0.5, 0.5, 2, 2, 0, 0)
 		for step, t := range walk {
 			var p c18M
 			hist := walk[:step+1]
-			if step == len(walk)-1 {
-				hist = ts
-			}
 			if !k.call("setlength", hist, func() {
 				if step == 0 {
 					w, err = models.NewPij(k.m, t)
@@ -1391,7 +1389,7 @@ func init() {
 			"For every t in T and every sum s+t of two ordinary members: P(t) from models.NewPij(model,t).Pij(i,j) must have entries in [0,1] (1e-12), rows summing to 1 (1e-9), P(0)=I (1e-9), " +
 			"equal exp(Qt) (1e-9) for the textbook Q = (r_ij pi_j) built by the harness and scaled to one substitution per unit time, exponentiated by Taylor+scaling-and-squaring (self-checked to 1e-11 against a Jacobi spectral evaluation), " +
 			"satisfy pi_i P_ij = pi_j P_ji (1e-9) and |P_ij(t)-pi_j| <= sqrt(pi_j/pi_i) exp(lambda2 t) + 1e-9 with lambda2 the second eigenvalue of Q; for every ordered pair (s,t) of ordinary members P(s+t) = P(s)P(t) (1e-9); " +
-			"one Pij object re-used through SetLength over T in order and back to T[0] must give exp(Qt) each time; for JC and K2P, R exp(Dt) L assembled from Eigens() must equal exp(Qt) and the analytical Pij (1e-9). " +
+			"one Pij object re-used through SetLength over T in order, back to T[0], then 0.5, 0, 0.5, 0.5, 2, 2, 0, 0 must give exp(Qt) each time; for JC and K2P, R exp(Dt) L assembled from Eigens() must equal exp(Qt) and the analytical Pij (1e-9). " +
 			"An evaluation is one transition matrix obtained from goalign and judged. An instance is non-trivial when it is not the JC-equivalent point (some rate != 1 or non-uniform pi, every protein instance); distinct = distinct parameter vector.",
 		Assumptions: []string{
 			"states are ordered A,C,G,T (the order of the InitModel frequency arguments); transitions are A<->G and C<->T",
